@@ -5,19 +5,43 @@
     appearance, or an error), a dump of EVERY live object, [==] of the result with every
     object, [in] for some probe namespaces, and the interning tables.  [check] runs the
     heap model ([step_op]) and, independently, the value-level rule ([spec_op]) and
-    judges the observation against both. *)
+    judges the observation against both.
+
+    NAMESPACE SUBCLASSES.  A namespace class that defines fields may be subclassed; the
+    subclass inherits the fields and the association ([_types.py:164-191]: it can neither
+    define fields nor be re-associated).  [ArgsNamespace.__eq__], [__hash__] (_types.py:
+    386-425), [RenderArgs.__contains__] (:1008) and every compatibility test look at
+    [type(ns)._RENDER_CLS] and the field values only, so for the model a namespace VALUE
+    is [(render class, field values)] whatever Python class it is an instance of
+    ([model.RArgs.nsv], unchanged).  What does follow the Python class is the flow of
+    INSTANCES: a set holds the very instance it was given and [ArgsNamespace.update]
+    builds [type(self).__new__(type(self))] (:589), i.e. the Python class of a namespace
+    behaves exactly like one more field that no [update] can name.  The correspondence
+    uses that reading: programs, defaults and dumps are written in the TAGGED encoding
+    [(c, tag :: fields)] (tag 0 = the associated class itself = what the defaults are
+    instances of; field [j] of the program is field [S j] of the encoding).  [check]
+    runs model and rule on the tagged program (sub-checks 7 / 17: which instance's class
+    every constituent has) AND on the stripped program [strip_op] (everything else; [==],
+    [hash], [in] never see the tag). *)
 From Coq Require Import List ZArith Bool Arith.
 Import ListNotations.
 From TI Require Import model.RArgs.
 
+(** [ob_ns] in the tagged encoding *)
 Record oobj := { ob_kind : nat; ob_cls : nat; ob_ns : dict; ob_hash : Z }.
+(** a live namespace INSTANCE: render class, [tag :: fields], hash *)
+Record onso := { on_cls : nat; on_f : list Z; on_hash : Z }.
 
 Record obs := {
   b_res : Z;                         (* >= 0: driver index of the result; -1-e: error e *)
   b_dump : list oobj;                (* every live object, by driver index *)
   b_eq : list bool;                  (* result == object j *)
   b_in : list bool;                  (* probe in result *)
-  b_itn : list (nat * nat * nat)     (* (kind, class, driver index), sorted *)
+  b_itn : list (nat * nat * nat);    (* (kind, class, driver index), sorted *)
+  b_nsnew : list onso;               (* namespace instances first seen at this step (operands
+                                        of the operation, constituents of any live set) *)
+  b_nseq : list (list bool)          (* one row per new instance: [==] with every instance
+                                        known after this step *)
 }.
 
 Record tcase := {
@@ -26,7 +50,12 @@ Record tcase := {
   t_nk : nat;
   t_ops : list op;
   t_probes : list (list nsv);
-  t_obs : list obs
+  t_obs : list obs;
+  (* after the last operation: every namespace instance again, and the full [==]
+     matrices of the namespace instances and of the live sets *)
+  t_fin_ns : list onso;
+  t_fin_nseq : list (list bool);
+  t_fin_eq : list (list bool)
 }.
 
 Definition ecode (e : err) : Z :=
@@ -67,28 +96,97 @@ Definition trip_eqb (a b : nat * nat * nat) : bool :=
 Definition bad_id : nat := 3000.
 Definition dummy : oobj := {| ob_kind := 99; ob_cls := 99; ob_ns := []; ob_hash := 0 |}.
 
+(** ** The tagged encoding and its erasure *)
+
+Definition strip_ns (n : nsv) : nsv := (fst n, tl (snd n)).
+Definition strip_dict (d : dict) : dict := map strip_ns d.
+Definition strip_oobj (o : oobj) : oobj :=
+  {| ob_kind := ob_kind o; ob_cls := ob_cls o; ob_ns := strip_dict (ob_ns o);
+     ob_hash := ob_hash o |}.
+Definition strip_opnd (b : nsv + nat) : nsv + nat :=
+  match b with inl n => inl (strip_ns n) | inr v => inr v end.
+Definition strip_op (o : op) : op :=
+  match o with
+  | OConstruct k cls init nss => OConstruct k cls init (map strip_ns nss)
+  | OUpdateNs x nss => OUpdateNs x (map strip_ns nss)
+  | OUpdateFields x rc fields => OUpdateFields x rc (map (fun p => (pred (fst p), snd p)) fields)
+  | OConvert x rc => OConvert x rc
+  | OOr a b => OOr (strip_ns a) (strip_opnd b)
+  | ORor a b => ORor (strip_ns a) (strip_opnd b)
+  | OPos a => OPos (strip_ns a)
+  | OTo a rc => OTo (strip_ns a) rc
+  end.
+Definition strip_nsd (nl : list (option (list Z))) : list (option (list Z)) :=
+  map (fun o => match o with Some f => Some (tl f) | None => None end) nl.
+(** the encoding is well formed: every default namespace is an instance of the
+    associated class itself *)
+Definition tagged_ok (nl : list (option (list Z))) : bool :=
+  forallb (fun o => match o with Some (0%Z :: _) => true | Some _ => false | None => true end) nl.
+
+Definition res_eqb (a b : res nat) : bool :=
+  match a, b with
+  | Ok i, Ok j => Nat.eqb i j
+  | Err e, Err e' => Z.eqb (ecode e) (ecode e')
+  | _, _ => false
+  end.
+
+(** "same render class, same field values" on observed objects (the documented meaning
+    of [==], _types.py:392-394, 1017-1018), whatever the classes of the instances *)
+Definition onso_same (x y : onso) : bool :=
+  Nat.eqb (on_cls x) (on_cls y) && zl_eqb (tl (on_f x)) (tl (on_f y)).
+Definition oobj_same (x y : oobj) : bool :=
+  Nat.eqb (ob_cls x) (ob_cls y) && dict_eqb (strip_dict (ob_ns x)) (strip_dict (ob_ns y)).
+Definition onso_eqb (x y : onso) : bool :=
+  Nat.eqb (on_cls x) (on_cls y) && zl_eqb (on_f x) (on_f y) && Z.eqb (on_hash x) (on_hash y).
+
+(** one row of an observed [==] matrix against a structural relation; equal objects
+    hash equal *)
+Definition row_ok {A} (same : A -> A -> bool) (hash : A -> Z) (all : list A) (x : A)
+           (row : list bool) : bool :=
+  Nat.eqb (length row) (length all) &&
+  forallb (fun q => Bool.eqb (fst q) (same x (snd q)) &&
+                    (negb (fst q) || Z.eqb (hash x) (hash (snd q))))
+          (combine row all).
+Definition rows_ok {A} (same : A -> A -> bool) (hash : A -> Z) (all xs : list A)
+           (rows : list (list bool)) : bool :=
+  Nat.eqb (length rows) (length xs) &&
+  forallb (fun p => row_ok same hash all (fst p) (snd p)) (combine xs rows).
+
 Record st := {
-  s_m : state;                 (* the model's heap and results *)
-  s_senv : list (res sval);    (* the rule's values *)
+  s_m : state;                 (* the model's heap and results (stripped program) *)
+  s_senv : list (res sval);    (* the rule's values (stripped program) *)
+  s_mt : state;                (* the model on the tagged program *)
+  s_senvt : list (res sval);   (* the rule on the tagged program *)
   s_mp : list nat;             (* driver index -> model identity *)
-  s_prev : list oobj           (* the previous dump *)
+  s_prev : list oobj;          (* the previous dump *)
+  s_nsl : list onso            (* the namespace instances seen so far *)
 }.
 
-(** failing sub-checks of one step: 1-6 concern the heap model, 10-14 the rule *)
-Definition step_check (F : forest) (ncls nk : nat) (s : st) (o : op) (pr : list nsv) (b : obs)
-  : st * list nat :=
+(** failing sub-checks of one step: 1-8 concern the heap model, 10-17 the rule.
+    [F] is the stripped forest, [Ft] the tagged one, [ot] the tagged operation. *)
+Definition step_check (F Ft : forest) (ncls nk : nat) (s : st) (ot : op) (prt : list nsv)
+           (b : obs) : st * list nat :=
+  let o := strip_op ot in
+  let pr := map strip_ns prt in
   let h := fst (s_m s) in
   let env := snd (s_m s) in
   let hr := step_op F h env o in
   let h' := fst hr in
   let r := snd hr in
   let sv := spec_op F (s_senv s) o in
+  let hrt := step_op Ft (fst (s_mt s)) (snd (s_mt s)) ot in
+  let ht' := fst hrt in
+  let rt := snd hrt in
+  let svt := spec_op Ft (s_senvt s) ot in
   let mp := s_mp s in
   let isok := (0 <=? b_res b)%Z in
   let j := Z.to_nat (b_res b) in
   let is_new := isok && Nat.eqb j (length mp) in
   let mp' := if is_new then mp ++ [match r with Ok id => id | Err _ => bad_id end] else mp in
-  let robj := nth j (b_dump b) dummy in
+  let robjt := nth j (b_dump b) dummy in
+  let sdump := map strip_oobj (b_dump b) in
+  let robj := strip_oobj robjt in
+  let nsl' := s_nsl s ++ b_nsnew b in
   (* --- against the heap model --- *)
   let c1 := match r with
             | Err e => Z.eqb (b_res b) (-1 - ecode e)
@@ -103,7 +201,7 @@ Definition step_check (F : forest) (ncls nk : nat) (s : st) (o : op) (pr : list 
                          Nat.eqb k (ob_kind (snd p)) && Nat.eqb c (ob_cls (snd p)) &&
                          dict_eqb d (ob_ns (snd p))
                        | None => false
-                       end) (combine mp' (b_dump b)) in
+                       end) (combine mp' sdump) in
   let c4 := match r with
             | Ok id => list_eqb Bool.eqb (map (fun i => req h' id i) mp') (b_eq b)
             | Err _ => match b_eq b with [] => true | _ => false end
@@ -121,6 +219,21 @@ Definition step_check (F : forest) (ncls nk : nat) (s : st) (o : op) (pr : list 
                                                      | None => []
                                                      end) (seq 0 ncls)) (seq 0 nk))
               (map (fun t => let '(k, c, x) := t in (k, c, nth x mp' bad_id)) (b_itn b)) in
+  (* the tagged run: same identities and errors (the class of a namespace instance
+     decides nothing), and every constituent is an instance of the predicted class *)
+  let c7 := res_eqb r rt &&
+            forallb (fun p =>
+                       match getobj ht' (fst p) with
+                       | Some (_, _, d) => dict_eqb d (ob_ns (snd p))
+                       | None => false
+                       end) (combine mp' (b_dump b)) in
+  (* [ArgsNamespace.__eq__] as the model has it *)
+  let c8 := forallb (fun p =>
+                       list_eqb Bool.eqb
+                                (map (fun y => ns_eq (on_cls (fst p), tl (on_f (fst p)))
+                                                     (on_cls y, tl (on_f y))) nsl')
+                                (snd p))
+                    (combine (b_nsnew b) (b_nseq b)) in
   (* --- against the rule (no heap): --- *)
   let c10 := match sv with
              | Err e => Z.eqb (b_res b) (-1 - ecode e)
@@ -135,19 +248,14 @@ Definition step_check (F : forest) (ncls nk : nat) (s : st) (o : op) (pr : list 
                         (length (filter (fun c => is_some (s_ns v c)) (seq 0 ncls))))
              | Err _ => true
              end in
-  (* existing objects are never altered; at most one object appears *)
+  (* existing objects are never altered (contents, classes of the constituent instances,
+     hash); at most one object appears *)
   let c12 := list_eqb oobj_eqb (firstn (length (s_prev s)) (b_dump b)) (s_prev s) &&
              (length (b_dump b) <=? S (length (s_prev s))) &&
              (isok || Nat.eqb (length (b_dump b)) (length (s_prev s))) in
   (* == is "same class, same values", and equal sets hash equal *)
   let c13 := negb isok ||
-             (Nat.eqb (length (b_eq b)) (length (b_dump b)) &&
-              forallb (fun p =>
-                         Bool.eqb (fst p)
-                                  (Nat.eqb (ob_cls robj) (ob_cls (snd p)) &&
-                                   dict_eqb (ob_ns robj) (ob_ns (snd p))) &&
-                         (negb (fst p) || Z.eqb (ob_hash robj) (ob_hash (snd p))))
-                      (combine (b_eq b) (b_dump b))) in
+             row_ok oobj_same ob_hash (b_dump b) robjt (b_eq b) in
   let c14 := match sv with
              | Ok v => negb isok ||
                        list_eqb Bool.eqb
@@ -155,34 +263,66 @@ Definition step_check (F : forest) (ncls nk : nat) (s : st) (o : op) (pr : list 
                                 (b_in b)
              | Err _ => true
              end in
+  (* namespaces: == is "same render class, same values" whatever the classes of the two
+     instances, and equal namespaces hash equal *)
+  let c15 := rows_ok onso_same on_hash nsl' (b_nsnew b) (b_nseq b) in
+  (* the rule on INSTANCES: every constituent of the result is (an instance of the class
+     of) the last namespace given, else init's, else the default; a field update keeps
+     the class *)
+  let c17 := match svt with
+             | Ok v =>
+               negb isok ||
+               forallb (fun c => ozl_eqb (dget (ob_ns robjt) c) (s_ns v c)) (seq 0 ncls)
+             | Err _ => true
+             end in
   let fails :=
       (if c1 then [] else [1]) ++ (if c2 then [] else [2]) ++ (if c3 then [] else [3]) ++
       (if c4 then [] else [4]) ++ (if c5 then [] else [5]) ++ (if c6 then [] else [6]) ++
+      (if c7 then [] else [7]) ++ (if c8 then [] else [8]) ++
       (if c10 then [] else [10]) ++ (if c11 then [] else [11]) ++ (if c12 then [] else [12]) ++
-      (if c13 then [] else [13]) ++ (if c14 then [] else [14]) in
-  ({| s_m := (h', env ++ [r]); s_senv := s_senv s ++ [sv]; s_mp := mp';
-      s_prev := b_dump b |}, fails).
+      (if c13 then [] else [13]) ++ (if c14 then [] else [14]) ++ (if c15 then [] else [15]) ++
+      (if c17 then [] else [17]) in
+  ({| s_m := (h', env ++ [r]); s_senv := s_senv s ++ [sv];
+      s_mt := (ht', snd (s_mt s) ++ [rt]); s_senvt := s_senvt s ++ [svt];
+      s_mp := mp'; s_prev := b_dump b; s_nsl := nsl' |}, fails).
 
-Fixpoint walk (F : forest) (ncls nk : nat) (s : st) (ops : list op) (prs : list (list nsv))
-         (bs : list obs) (t : nat) : list (nat * nat) :=
+(** after the last operation: no namespace instance was altered (values, class, hash);
+    [==] on ALL pairs of namespace instances and on ALL pairs of live sets is the
+    structural relation (hence an equivalence) and equal objects hash equal (16); the
+    model's [req] gives the same matrix (4) *)
+Definition final_check (s : st) (fns : list onso) (nseq req_m : list (list bool)) : list nat :=
+  let h := fst (s_m s) in
+  let c4 := list_eqb (list_eqb Bool.eqb)
+                     (map (fun x => map (fun y => req h x y) (s_mp s)) (s_mp s)) req_m in
+  let c16 := list_eqb onso_eqb fns (s_nsl s) &&
+             rows_ok onso_same on_hash fns fns nseq &&
+             rows_ok oobj_same ob_hash (s_prev s) (s_prev s) req_m in
+  (if c4 then [] else [4]) ++ (if c16 then [] else [16]).
+
+Fixpoint walk (F Ft : forest) (ncls nk : nat) (s : st) (ops : list op) (prs : list (list nsv))
+         (bs : list obs) (fin : st -> list nat) (t : nat) : list (nat * nat) :=
   match ops, bs with
   | o :: ops', b :: bs' =>
     let pr := hd [] prs in
-    let '(s', fails) := step_check F ncls nk s o pr b in
-    map (fun f => (t, f)) fails ++ walk F ncls nk s' ops' (tl prs) bs' (S t)
-  | [], [] => []
+    let '(s', fails) := step_check F Ft ncls nk s o pr b in
+    map (fun f => (t, f)) fails ++ walk F Ft ncls nk s' ops' (tl prs) bs' fin (S t)
+  | [], [] => map (fun f => (t, f)) (fin s)
   | _, _ => [(t, 9)]    (* observation and program of different lengths *)
   end.
 
 (** BASE_RENDER_ARGS is object 0 of the model but unknown to the driver until an
     operation returns it: the driver's numbering starts empty. *)
-Definition st0 : st := {| s_m := (heap0, []); s_senv := []; s_mp := []; s_prev := [] |}.
+Definition st0 : st :=
+  {| s_m := (heap0, []); s_senv := []; s_mt := (heap0, []); s_senvt := [];
+     s_mp := []; s_prev := []; s_nsl := [] |}.
 
 (** all failing (step, sub-check) pairs; sub-check 0 = the forest is not well formed *)
 Definition diag (t : tcase) : list (nat * nat) :=
-  let F := mkF (t_par t) (t_nsd t) in
-  (if wf_lists (t_par t) (t_nsd t) then [] else [(0, 0)]) ++
-  walk F (length (t_par t)) (t_nk t) st0 (t_ops t) (t_probes t) (t_obs t) 0.
+  let F := mkF (t_par t) (strip_nsd (t_nsd t)) in
+  let Ft := mkF (t_par t) (t_nsd t) in
+  (if wf_lists (t_par t) (t_nsd t) && tagged_ok (t_nsd t) then [] else [(0, 0)]) ++
+  walk F Ft (length (t_par t)) (t_nk t) st0 (t_ops t) (t_probes t) (t_obs t)
+       (fun s => final_check s (t_fin_ns t) (t_fin_nseq t) (t_fin_eq t)) 0.
 
 (** 0 = agrees with model and rule; 1 = differs from the model only; 2 = the observed
     behaviour contradicts the rule (property fails); 3 = both *)
